@@ -470,7 +470,8 @@ def run(ctx):
     ctx.do(r5_5)
     ctx.do(r5_6)
     ctx.do(r5_7)
-    from . import c10
+    from . import c04, c10
+    ctx.do(c04.r4_9)
     ctx.do(c10.r10_4)
     ctx.do(c10.r10_4_units)
     for k, v in RAISE_AFTER_EFFECT_OK.items():
